@@ -10,14 +10,16 @@ use crate::integrals::{CellIntegral, CellIntegralWithData, FaceIntegral, FaceInt
 use crate::space::Space;
 use crate::voronoi::convex_cell::{ConvexCell, ConvexCellMarker};
 use glam::DVec3;
-use std::sync::atomic::{AtomicUsize, Ordering};
+use std::sync::atomic::{AtomicPtr, Ordering};
 
 // ---------------------------------------------------------------------------
 // Seam registry
 // ---------------------------------------------------------------------------
 
-static SCHED_POINT: AtomicUsize = AtomicUsize::new(0);
-static HASH_ORDER: AtomicUsize = AtomicUsize::new(0);
+// (function pointers are kept as pointers, not as integers, so that their provenance survives: an
+// interpreter that tracks provenance can then run code that goes through the seams)
+static SCHED_POINT: AtomicPtr<()> = AtomicPtr::new(std::ptr::null_mut());
+static HASH_ORDER: AtomicPtr<()> = AtomicPtr::new(std::ptr::null_mut());
 
 /// Sites at which `sched_point` is invoked.
 pub const SITE_BUILD_NEIGHBOUR_LOOP: u32 = 1;
@@ -38,13 +40,13 @@ pub const SITE_EXACT_PREDICATE: u32 = 10;
 
 /// Register the callback invoked at scheduling points inside a cell.
 pub fn set_sched_point(f: Option<fn(u32)>) {
-    SCHED_POINT.store(f.map_or(0, |f| f as usize), Ordering::SeqCst);
+    SCHED_POINT.store(f.map_or(std::ptr::null_mut(), |f| f as *const () as *mut ()), Ordering::SeqCst);
 }
 
 /// Register the callback that owns the iteration order of the extremal point
 /// set of `Epos6::bounding_sphere`.
 pub fn set_hash_order(f: Option<fn(&mut Vec<usize>)>) {
-    HASH_ORDER.store(f.map_or(0, |f| f as usize), Ordering::SeqCst);
+    HASH_ORDER.store(f.map_or(std::ptr::null_mut(), |f| f as *const () as *mut ()), Ordering::SeqCst);
 }
 
 /// Addresses of this module's own atomics (the seam registry and the fault switch). A harness that
@@ -52,8 +54,8 @@ pub fn set_hash_order(f: Option<fn(&mut Vec<usize>)>) {
 /// they are read at every hook site and belong to the plumbing, not to the library.
 pub fn seam_addresses() -> [usize; 3] {
     [
-        &SCHED_POINT as *const AtomicUsize as usize,
-        &HASH_ORDER as *const AtomicUsize as usize,
+        &SCHED_POINT as *const AtomicPtr<()> as usize,
+        &HASH_ORDER as *const AtomicPtr<()> as usize,
         &INJECTED_PANIC as *const std::sync::atomic::AtomicU64 as usize,
     ]
 }
@@ -62,9 +64,9 @@ pub fn seam_addresses() -> [usize; 3] {
 #[inline]
 pub(crate) fn sched_point(site: u32) {
     let f = SCHED_POINT.load(Ordering::Relaxed);
-    if f != 0 {
+    if !f.is_null() {
         // Safety: only ever stored from a `fn(u32)` in `set_sched_point`.
-        let f: fn(u32) = unsafe { std::mem::transmute(f) };
+        let f: fn(u32) = unsafe { std::mem::transmute::<*mut (), fn(u32)>(f) };
         f(site);
     }
 }
@@ -72,16 +74,16 @@ pub(crate) fn sched_point(site: u32) {
 /// Whether a harness owns the hash iteration order.
 #[inline]
 pub(crate) fn hash_order_active() -> bool {
-    HASH_ORDER.load(Ordering::Relaxed) != 0
+    !HASH_ORDER.load(Ordering::Relaxed).is_null()
 }
 
 /// Let the harness permute `order` (the sorted members of a hash set).
 #[inline]
 pub(crate) fn hash_order(order: &mut Vec<usize>) {
     let f = HASH_ORDER.load(Ordering::Relaxed);
-    if f != 0 {
+    if !f.is_null() {
         // Safety: only ever stored from a `fn(&mut Vec<usize>)` in `set_hash_order`.
-        let f: fn(&mut Vec<usize>) = unsafe { std::mem::transmute(f) };
+        let f: fn(&mut Vec<usize>) = unsafe { std::mem::transmute::<*mut (), fn(&mut Vec<usize>)>(f) };
         f(order);
     }
 }
